@@ -104,6 +104,7 @@ class IterState:
         self.pms = pms
         self.label = label
         self.done = z3.BoolVal(False)  # StopIteration already delivered
+        self.closed = False  # aclose()d by asyncstdlib.zip (elements lost)
 
 
 class State:
